@@ -7,6 +7,7 @@ import (
 	"net"
 	"sort"
 	"strings"
+	"sync"
 	"testing/synctest"
 	"time"
 
@@ -50,18 +51,25 @@ type p2pRig struct {
 	ckpts   []chaincfg.Checkpoint
 	capAll  int
 	// bookkeeping for oracles
-	banUntil          map[string]time.Time // model of bans (host -> expiry on the simulated clock)
-	forbidden         map[Hash32]bool
-	offered           map[Hash32]bool // every header some node put on the wire
-	lastGH            map[int]int     // per conn: number of getheaders already checked
-	healing           bool
-	fresh             bool
-	disableCk         bool
-	nGetHdrs          int
-	nReplies          int
-	nFaults           int
-	instSeq           int64
-	inCoStep          bool
+	banUntil  map[string]time.Time // model of bans (host -> expiry on the simulated clock)
+	forbidden map[Hash32]bool
+	offered   map[Hash32]bool // every header some node put on the wire
+	lastGH    map[int]int     // per conn: number of getheaders already checked
+	healing   bool
+	fresh     bool
+	disableCk bool
+	nGetHdrs  int
+	nReplies  int
+	nFaults   int
+	instSeq   int64
+	inCoStep  bool
+	// outbound class: the service dials scripted nodes it learnt from the (simulated) DNS seed and from addr messages;
+	// every Dial of the connection manager parks here until the scheduler answers it
+	outbound          bool
+	dialMu            sync.Mutex
+	dials             []*dialTask
+	dialSeq           int
+	dialsClosed       bool
 	everLongest       map[string]bool // every header that was on the longest chain at some quiescent point
 	startTip          int             // height of the stored tip when the service was started (checkpoints at or below it count as passed)
 	replayingDeferred bool
@@ -290,8 +298,31 @@ func p2psimRun(r *Run) {
 	g.lis = newSimListener("0.0.0.0:8333")
 	p2putil.SimListeners = func() ([]net.Listener, error) { return []net.Listener{g.lis}, nil }
 	oldLookup, oldDial := config.Lookup, config.Dial
-	config.Lookup = func(string) ([]net.IP, error) { return nil, errors.New("simnet: no DNS") }
+	// outbound class (a third of the runs, not in the race class and not for the flood): the DNS seed names some of the
+	// scripted nodes and the service dials them
+	g.outbound = r.Opt["race"] != "1" && r.Opt["outbound"] != "0" && (r.Opt["outbound"] == "1" || t.Chance(1, 3, "outbound-class"))
+	r.Cfg["outbound"] = g.outbound
+	var seedIPs []net.IP
+	if g.outbound {
+		for _, n := range g.nodes {
+			if t.Chance(2, 3, "in-dns-seed") {
+				seedIPs = append(seedIPs, n.ip)
+			}
+		}
+	}
+	config.Lookup = func(string) ([]net.IP, error) {
+		if len(seedIPs) == 0 {
+			return nil, errors.New("simnet: no DNS")
+		}
+		// the answer of the seed takes its time: the connection manager's first round of requests (started at the
+		// same moment as the lookup) finds no address and comes back after its retry interval
+		time.Sleep(1500 * time.Millisecond)
+		return append([]net.IP{}, seedIPs...), nil
+	}
 	config.Dial = func(network, addr string, d time.Duration) (net.Conn, error) {
+		if g.outbound {
+			return g.parkDial(addr)
+		}
 		time.Sleep(2 * time.Second) // a dial that fails in zero simulated time makes the connection manager spin
 		return nil, errors.New("simnet: unreachable")
 	}
@@ -384,6 +415,7 @@ func (g *p2pRig) forbidden2list() []Hash32 {
 }
 
 func (g *p2pRig) shutdown() {
+	g.closeDials()
 	for _, c := range g.conns {
 		_ = c.nodeEnd.Close()
 	}
@@ -414,6 +446,89 @@ func (g *p2pRig) uniqueInstant() {
 	if d := (target - frac + time.Second) % time.Second; d > 0 {
 		time.Sleep(d)
 		synctest.Wait()
+	}
+}
+
+type dialAnswer struct {
+	conn net.Conn
+	err  error
+}
+
+type dialTask struct {
+	addr string
+	seq  int
+	ch   chan dialAnswer
+}
+
+// parkDial is the service's Dial in the outbound class: it blocks (durably, for the simulator) until answered.
+func (g *p2pRig) parkDial(addr string) (net.Conn, error) {
+	g.dialMu.Lock()
+	if g.dialsClosed {
+		g.dialMu.Unlock()
+		return nil, errors.New("simnet: network is down")
+	}
+	g.dialSeq++
+	tk := &dialTask{addr: addr, seq: g.dialSeq, ch: make(chan dialAnswer, 1)}
+	g.dials = append(g.dials, tk)
+	g.dialMu.Unlock()
+	a := <-tk.ch
+	return a.conn, a.err
+}
+
+// parkedDials lists the dials waiting for an answer in a repeatable order (by address; the connection requests behind
+// two dials of one address are interchangeable).
+func (g *p2pRig) parkedDials() []*dialTask {
+	g.dialMu.Lock()
+	out := append([]*dialTask{}, g.dials...)
+	g.dialMu.Unlock()
+	sort.SliceStable(out, func(i, j int) bool { return out[i].addr < out[j].addr })
+	return out
+}
+
+// answerDial connects the parked dial to the scripted node that owns the address, or refuses it.
+func (g *p2pRig) answerDial(tk *dialTask, connect bool) {
+	g.dialMu.Lock()
+	for i, x := range g.dials {
+		if x == tk {
+			g.dials = append(g.dials[:i], g.dials[i+1:]...)
+			break
+		}
+	}
+	g.dialMu.Unlock()
+	var node *simNode
+	host, _, _ := net.SplitHostPort(tk.addr)
+	for _, n := range g.nodes {
+		if n.ip.String() == host {
+			node = n
+		}
+	}
+	if !connect || node == nil {
+		g.r.Logf("dial %s -> refused", tk.addr)
+		g.r.Fault("dial-refused")
+		tk.ch <- dialAnswer{nil, errors.New("simnet: connection refused")}
+		return
+	}
+	g.uniqueInstant()
+	g.connSeq++
+	nodeEnd, svcEnd := simPipe(node.addr(8333), &net.TCPAddr{IP: net.IPv4(10, 0, 0, 1), Port: 40000 + g.connSeq})
+	nodeEnd.SetGated(true)
+	c := &nodeConn{id: g.connSeq, node: node, nodeEnd: nodeEnd, svcEnd: svcEnd, inbound: false, openedAt: g.r.Step}
+	node.conns = append(node.conns, c)
+	g.conns = append(g.conns, c)
+	g.r.Logf("dial %s -> connected as %s", tk.addr, c)
+	g.r.Probe("outbound-connection")
+	tk.ch <- dialAnswer{svcEnd, nil}
+}
+
+// closeDials refuses what is parked and every later dial (end of the run).
+func (g *p2pRig) closeDials() {
+	g.dialMu.Lock()
+	g.dialsClosed = true
+	ds := g.dials
+	g.dials = nil
+	g.dialMu.Unlock()
+	for _, tk := range ds {
+		tk.ch <- dialAnswer{nil, errors.New("simnet: network is down")}
 	}
 }
 
@@ -566,6 +681,17 @@ func (g *p2pRig) nodeReceive(c *nodeConn, m wire.Message) {
 		}
 	case *wire.MsgPing:
 		c.send(wire.NewMsgPong(msg.Nonce))
+	case *wire.MsgGetAddr:
+		// the node tells what it knows: the other scripted nodes and an address nobody listens on
+		am := wire.NewMsgAddr()
+		for _, x := range g.nodes {
+			if x != n {
+				_ = am.AddAddress(wire.NewNetAddressTimestamp(time.Unix(g.now().Unix(), 0), wire.SFNodeNetwork, x.ip, 8333))
+			}
+		}
+		_ = am.AddAddress(wire.NewNetAddressTimestamp(time.Unix(g.now().Unix(), 0), wire.SFNodeNetwork, net.IPv4(99, byte(90+n.idx), 1, 1), 8333))
+		c.send(am)
+		r.Probe("addr-sent")
 	case *wire.MsgGetHeaders:
 		c.getHdrs = append(c.getHdrs, msg)
 		g.nGetHdrs++
@@ -686,6 +812,9 @@ func (g *p2pRig) step() {
 	for _, c := range g.liveConns(func(c *nodeConn) bool { return c.node != g.honest && c.handshaken() }) {
 		evs = append(evs, ev{"close", c, nil, 1}, ev{"reset", c, nil, 1})
 	}
+	if pd := g.parkedDials(); len(pd) > 0 {
+		evs = append(evs, ev{"dial", nil, nil, 20})
+	}
 	evs = append(evs, ev{"clock", nil, nil, 8}, ev{"outage", nil, nil, 1 + 2*boolInt(len(g.banUntil) > 0)})
 	for _, c := range g.liveConns(func(c *nodeConn) bool { return c.node != g.honest }) {
 		evs = append(evs, ev{"partition", c, nil, 1})
@@ -740,6 +869,10 @@ func (g *p2pRig) step() {
 		n := g.deliver(e.c, k)
 		r.Logf("deliver %s %d bytes", e.c, n)
 		g.afterDeliver(e.c)
+	case "dial":
+		pd := g.parkedDials()
+		tk := pd[t.Draw(len(pd), "dial-idx")]
+		g.answerDial(tk, t.Chance(3, 4, "dial-connects"))
 	case "connect":
 		c := g.connect(e.n)
 		r.Logf("connect %s from %s", c, e.n.ip)
@@ -986,6 +1119,21 @@ func (g *p2pRig) announce(n *simNode, nb *MHeader) {
 // invariants hold at every quiescent point.
 func (g *p2pRig) invariants() {
 	r := g.r
+	// never more outbound connections than the connection manager's target (its documented default: 8)
+	if g.outbound {
+		est := 0
+		for _, c := range g.conns {
+			if !c.inbound && !c.closed && !c.dead {
+				est++
+			}
+		}
+		if est > 8 {
+			r.Fail("C18", "over-target", "p2psim-outbound", "%d outbound connections are established at a quiescent point, the connection manager's target is 8", est)
+		}
+		if est == 8 {
+			r.Probe("outbound-target-reached")
+		}
+	}
 	rows := g.w.Snapshot()
 	if msg := structuralCheck(rows); msg != "" {
 		r.Fail("C06", "structure", "p2p", "store structurally invalid during sync: %s", msg)
@@ -1381,9 +1529,19 @@ func (g *p2pRig) heal() {
 				}
 			}
 		}
-		// deliver everything that is pending, whole
+		// deliver everything that is pending, whole; every dial reaches its node
+		dialBudget := 8 // per round: the connection manager never stops asking (its target is out of reach of a handful of hosts)
 		for i := 0; i < 50; i++ {
 			moved := false
+			for _, tk := range g.parkedDials() {
+				if dialBudget == 0 {
+					break
+				}
+				dialBudget--
+				g.answerDial(tk, true)
+				moved = true
+				g.settle()
+			}
 			for _, c := range g.liveConns(nil) {
 				if c.nodeEnd.PendingOut() > 0 {
 					g.deliver(c, 0)
